@@ -178,9 +178,9 @@ func obModel(capacity int) porcupine.Model {
 	return nm.ToModel()
 }
 
-func c46Scenarios(thorough bool) []scenario {
+func c46Scenarios(thorough bool) scenarioSet {
 	alpha := []obOp{{obAdd, obItem{1, "a"}}, {obAdd, obItem{1, "a'"}}, {obAdd, obItem{2, "b"}}, {obFirst, obItem{}}, {obPop, obItem{}}}
-	caps := []int{1, 2}
+	caps := []int{2}
 	bound := 2
 	if thorough {
 		alpha = []obOp{{obAdd, obItem{1, "a"}}, {obAdd, obItem{1, "a'"}}, {obAdd, obItem{2, "b"}}, {obAdd, obItem{3, "c"}}, {obFirst, obItem{}}, {obPop, obItem{}}}
@@ -193,15 +193,16 @@ func c46Scenarios(thorough bool) []scenario {
 			progs = append(progs, []obOp{a, b})
 		}
 	}
-	var out []scenario
+	type tup struct{ c, i, j, k int }
+	var tups []tup
+	models := map[int]porcupine.Model{}
 	for _, capacity := range caps {
-		model := obModel(capacity)
+		models[capacity] = obModel(capacity)
 		for i := 0; i < len(progs); i++ {
 			for j := i; j < len(progs); j++ {
 				for k := j; k < len(progs); k++ {
-					ps := [][]obOp{progs[i], progs[j], progs[k]}
 					onlyReads := true
-					for _, p := range ps {
+					for _, p := range [][]obOp{progs[i], progs[j], progs[k]} {
 						for _, o := range p {
 							onlyReads = onlyReads && o.Kind != obAdd
 						}
@@ -209,12 +210,15 @@ func c46Scenarios(thorough bool) []scenario {
 					if onlyReads {
 						continue // nothing is ever in the buffer: one outcome by construction
 					}
-					out = append(out, c46Scenario(capacity, ps, bound, model))
+					tups = append(tups, tup{capacity, i, j, k})
 				}
 			}
 		}
 	}
-	return out
+	return scenarioSet{N: len(tups), At: func(n int) scenario {
+		t := tups[n]
+		return c46Scenario(t.c, [][]obOp{progs[t.i], progs[t.j], progs[t.k]}, bound, models[t.c])
+	}}
 }
 
 func c46Scenario(capacity int, progs [][]obOp, bound int, model porcupine.Model) scenario {
@@ -237,13 +241,13 @@ func c46Scenario(capacity int, progs [][]obOp, bound int, model porcupine.Model)
 						it, ok := w.buf.First()
 						rec.Out.OK = ok
 						if ok {
-							rec.Out.It = obItem{it.Round, it.Data.(string)}
+							rec.Out.It = obItem{it.Round, dataStr(it.Data)}
 						}
 					case obPop:
 						it, ok := w.buf.Pop()
 						rec.Out.OK = ok
 						if ok {
-							rec.Out.It = obItem{it.Round, it.Data.(string)}
+							rec.Out.It = obItem{it.Round, dataStr(it.Data)}
 						}
 					}
 					rec.Ret = vsync.Tick()
@@ -258,7 +262,7 @@ func c46Scenario(capacity int, progs [][]obOp, bound int, model porcupine.Model)
 		var vs []viol
 		var final []obItem
 		for _, it := range w.buf.Buffer {
-			final = append(final, obItem{it.Round, it.Data.(string)})
+			final = append(final, obItem{it.Round, dataStr(it.Data)})
 		}
 		var hist []porcupine.Operation
 		var sig strings.Builder
@@ -330,6 +334,15 @@ func c46Scenario(capacity int, progs [][]obOp, bound int, model porcupine.Model)
 		return outcome, vs
 	}
 	return scenario{Name: name, Bound: bound, Body: body, Check: check}
+}
+
+// dataStr renders a buffer entry's data; anything that is not one of the harness's strings (e.g. a
+// zero Item left behind by a broken insert) is shown as it is and can never match the reference.
+func dataStr(d interface{}) string {
+	if s, ok := d.(string); ok {
+		return s
+	}
+	return fmt.Sprintf("<%v>", d)
 }
 
 func firstLines(s string, n int) string {
